@@ -1,5 +1,6 @@
 (** Equality and order on values (src/data.rs: derived Eq, impl Ord). *)
-From Coq Require Import List ZArith NArith Bool Lia.
+From Coq Require Import List ZArith NArith Bool Lia Lra Reals Floats.SpecFloat.
+From Flocq Require Import Core IEEE754.BinarySingleNaN.
 From AG Require Import Str F64 Value Str_proofs F64_proofs F64_exact_proofs.
 Import ListNotations.
 Open Scope Z_scope.
@@ -24,11 +25,16 @@ Fixpoint no_mixed (a b : value) {struct a} : bool :=
   | _, _ => true
   end.
 
-(** the domain on which Ord is a total preorder: integers that meet floats
-    must be exactly representable (the property's "+-2^53") *)
+(** the domain on which Ord is a total preorder: well-formed numbers, i.e. any
+    integer (the comparison of an integer with a double is exact, so no bound
+    is needed) and any well-formed double ([valid_binary]: canonical mantissa
+    and exponent in range; every double that Rust can produce is well-formed).
+    The name is historical: with the former lossy int/float comparison the
+    integers had to be bounded by 2^53. *)
 Fixpoint small_ints (v : value) : bool :=
   match v with
-  | VInt z => Z.abs z <=? 2 ^ 53
+  | VInt _ => true
+  | VFloat f => valid_binary prec emax f
   | VArr l => forallb small_ints l
   | VObj kvs => forallb (fun kv => small_ints (snd kv)) kvs
   | _ => true
@@ -257,16 +263,128 @@ Proof.
   - apply ocmp_trans_lt.
 Qed.
 
-Definition num_key (v : value) : f64 :=
-  match v with VInt z => f_of_Z z | VFloat f => f | _ => f_zero end.
+(** *** numbers: [vcmp] is the order of an exact key in the reals extended
+    with -inf, +inf and NaN (NaN greatest) *)
+
+Lemma cmp_int_F2R : forall i M e,
+  (if 0 <=? e then Z.compare i (M * 2 ^ e) else Z.compare (i * 2 ^ (- e)) M)
+  = Rcompare (IZR i) (F2R (Float radix2 M e)).
+Proof.
+  intros i M e. unfold F2R. cbn [Fnum Fexp].
+  destruct (Z.leb_spec 0 e) as [He|He].
+  - rewrite <- (IZR_Zpower radix2 e He), <- mult_IZR, Rcompare_IZR. reflexivity.
+  - rewrite <- (Rcompare_mult_r (bpow radix2 (- e))) by apply bpow_gt_0.
+    rewrite Rmult_assoc, <- bpow_plus.
+    replace (e + - e) with 0 by lia. rewrite Rmult_1_r.
+    rewrite <- (IZR_Zpower radix2 (- e)) by lia.
+    rewrite <- mult_IZR, Rcompare_IZR. reflexivity.
+Qed.
+
+(** the integer/double comparison is the exact numeric one (for every integer
+    and every finite double, well-formed or not) *)
+Lemma cmp_int_float_R : forall i f, f_is_finite f = true ->
+  cmp_int_float i f = Rcompare (IZR i) (SF2R radix2 f).
+Proof.
+  intros i [s|s| |s m e] Hf; try discriminate Hf.
+  - cbn [cmp_int_float SF2R]. rewrite <- Rcompare_IZR. reflexivity.
+  - cbn [cmp_int_float SF2R]. rewrite <- cmp_int_F2R.
+    destruct s; reflexivity.
+Qed.
+
+(** on finite well-formed doubles OrderedFloat's order is the numeric one *)
+Lemma ocmp_R : forall f g,
+  valid_binary prec emax f = true -> valid_binary prec emax g = true ->
+  f_is_finite f = true -> f_is_finite g = true ->
+  ocmp f g = Rcompare (SF2R radix2 f) (SF2R radix2 g).
+Proof.
+  intros f g Vf Vg Ff Fg. unfold ocmp, fcmp.
+  rewrite <- (B2SF_SF2B prec emax f Vf), <- (B2SF_SF2B prec emax g Vg).
+  change (SFcompare (B2SF (SF2B f Vf)) (B2SF (SF2B g Vg)))
+    with (Bcompare (SF2B f Vf) (SF2B g Vg)).
+  rewrite Bcompare_correct.
+  - rewrite !B2R_SF2B, !B2SF_SF2B. reflexivity.
+  - rewrite is_finite_SF2B. destruct f; try discriminate Ff; reflexivity.
+  - rewrite is_finite_SF2B. destruct g; try discriminate Fg; reflexivity.
+Qed.
+
+Inductive xr : Type := XNegInf | XFin (r : R) | XPosInf | XNaN.
+
+Definition xcmp (a b : xr) : comparison :=
+  match a, b with
+  | XNegInf, XNegInf => Eq
+  | XNegInf, _ => Lt
+  | XFin _, XNegInf => Gt
+  | XFin x, XFin y => Rcompare x y
+  | XFin _, _ => Lt
+  | XPosInf, XPosInf => Eq
+  | XPosInf, XNaN => Lt
+  | XPosInf, _ => Gt
+  | XNaN, XNaN => Eq
+  | XNaN, _ => Gt
+  end.
+
+Lemma tri_R x y z : tri (Rcompare x y) (Rcompare x z) (Rcompare y z).
+Proof.
+  unfold tri.
+  destruct (Rcompare_spec x y), (Rcompare_spec x z), (Rcompare_spec y z);
+    repeat split; intros; try reflexivity; try discriminate; exfalso; lra.
+Qed.
+
+Lemma tri_xcmp x y z : tri (xcmp x y) (xcmp x z) (xcmp y z).
+Proof.
+  destruct x, y, z; cbn [xcmp]; try apply tri_R;
+    unfold tri; repeat split; intros; congruence.
+Qed.
+
+Lemma xcmp_antisym x y : xcmp y x = CompOpp (xcmp x y).
+Proof.
+  destruct x, y; cbn [xcmp CompOpp]; try reflexivity. apply Rcompare_sym.
+Qed.
+
+Definition f_key (f : f64) : xr :=
+  match f with
+  | S754_nan => XNaN
+  | S754_infinity s => if s then XNegInf else XPosInf
+  | _ => XFin (SF2R radix2 f)
+  end.
+
+Definition num_key (v : value) : xr :=
+  match v with VInt z => XFin (IZR z) | VFloat f => f_key f | _ => XFin 0 end.
+
+Lemma cmp_int_float_key : forall i f, cmp_int_float i f = xcmp (XFin (IZR i)) (f_key f).
+Proof.
+  intros i f. destruct f as [s|s| |s m e] eqn:E.
+  - rewrite cmp_int_float_R by reflexivity. reflexivity.
+  - destruct s; reflexivity.
+  - reflexivity.
+  - rewrite cmp_int_float_R by reflexivity. reflexivity.
+Qed.
+
+Lemma ocmp_key_R : forall f g,
+  valid_binary prec emax f = true -> valid_binary prec emax g = true ->
+  ocmp f g = xcmp (f_key f) (f_key g).
+Proof.
+  intros f g Vf Vg.
+  destruct (f_is_finite f) eqn:Ff; [destruct (f_is_finite g) eqn:Fg|].
+  - rewrite (ocmp_R f g Vf Vg Ff Fg).
+    destruct f; try discriminate Ff; destruct g; try discriminate Fg; reflexivity.
+  - destruct f as [s|s| |s m e]; try discriminate Ff;
+      destruct g as [s'|s'| |s' m' e']; try discriminate Fg;
+      try destruct s; try destruct s'; reflexivity.
+  - destruct f as [s|s| |s m e]; try discriminate Ff;
+      destruct g as [s'|s'| |s' m' e']; try destruct s; try destruct s'; reflexivity.
+Qed.
 
 Lemma vcmp_num a b : rank a = 2%N -> rank b = 2%N ->
   small_ints a = true -> small_ints b = true ->
-  vcmp a b = ocmp (num_key a) (num_key b).
+  vcmp a b = xcmp (num_key a) (num_key b).
 Proof.
   destruct a; intros Ra; try discriminate Ra; destruct b; intros Rb; try discriminate Rb;
-    cbn [small_ints vcmp num_key]; intros Sa Sb; try reflexivity.
-  symmetry. apply f_of_Z_compare; unfold small; apply Z.leb_le; assumption.
+    cbn [small_ints vcmp num_key]; intros Sa Sb.
+  - symmetry. apply Rcompare_IZR.
+  - apply cmp_int_float_key.
+  - rewrite cmp_int_float_key. symmetry. apply xcmp_antisym.
+  - apply ocmp_key_R; assumption.
 Qed.
 
 Lemma tri_num a y z : rank a = 2%N -> rank y = 2%N -> rank z = 2%N ->
@@ -275,7 +393,7 @@ Lemma tri_num a y z : rank a = 2%N -> rank y = 2%N -> rank z = 2%N ->
 Proof.
   intros Ra Ry Rz Sa Sy Sz.
   rewrite (vcmp_num a y), (vcmp_num a z), (vcmp_num y z) by assumption.
-  apply tri_ocmp.
+  apply tri_xcmp.
 Qed.
 
 Ltac cross_rank :=
@@ -382,8 +500,7 @@ Proof.
     try reflexivity.
   - apply str_cmp_antisym.
   - apply Z.compare_antisym.
-  - cbn [vcmp]. apply ocmp_antisym.
-  - cbn [vcmp]. apply ocmp_antisym.
+  - cbn [vcmp]. symmetry. apply CompOpp_involutive.
   - cbn [vcmp]. apply ocmp_antisym.
   - destruct b, b'; reflexivity.
   - apply Z.compare_antisym.
@@ -481,10 +598,24 @@ Qed.
 Lemma vcmp_int_int : forall x y, vcmp (VInt x) (VInt y) = Z.compare x y.
 Proof. reflexivity. Qed.
 
-Lemma vcmp_int_float_small : forall x y, Z.abs x <= 2 ^ 53 -> Z.abs y <= 2 ^ 53 ->
+(** an integer against a double: the exact numeric order, for every integer
+    and every finite well-formed double *)
+Lemma vcmp_int_float_exact : forall i f,
+  valid_binary prec emax f = true -> f_is_finite f = true ->
+  vcmp (VInt i) (VFloat f) = Rcompare (IZR i) (SF2R radix2 f).
+Proof.
+  intros i f _ Hf. cbn [vcmp]. apply cmp_int_float_R. exact Hf.
+Qed.
+
+Lemma vcmp_int_float_small : forall x y, Z.abs y <= 2 ^ 53 ->
   vcmp (VInt x) (VFloat (f_of_Z y)) = Z.compare x y.
 Proof.
-  intros x y Hx Hy. cbn [vcmp]. apply f_of_Z_compare; assumption.
+  intros x y Hy.
+  destruct (f_of_Z_valid y Hy) as [Vy Fy].
+  rewrite (vcmp_int_float_exact x _ Vy Fy).
+  rewrite f_of_Z_BofZ, SF2R_B2SF.
+  destruct (BofZ_correct y Hy) as (Ry & _ & _).
+  rewrite Ry. apply Rcompare_IZR.
 Qed.
 
 (** strings compare lexicographically by code point *)
